@@ -11,6 +11,10 @@ import (
 // efficient, it requires less extra traffic while provides comparable entropy.
 const responsePaddingMaxSize = 32
 
+// maxPaddingOptLen is the maximum length of the padding option that is added
+// to a response: the option code, the option length, and the padding itself.
+const maxPaddingOptLen = 4 + responsePaddingMaxSize
+
 // respPadBuf is a fixed buffer to draw on for padding.
 var respPadBuf [responsePaddingMaxSize]byte
 
@@ -66,13 +70,20 @@ func normalize(network Network, proto Protocol, req, resp *dns.Msg, maxMsgSize u
 	}
 
 	// Make sure that we don't send messages larger than the protocol supports.
-	truncate(resp, maxDNSSize(network, ednsUDPSize, maxMsgSize))
+	// The padding is added after the truncation, so leave room for it.
+	maxSize := maxDNSSize(network, ednsUDPSize, maxMsgSize)
+	needsPadding := proto.HasPaddingSupport() && findOption[*dns.EDNS0_PADDING](reqOpt) != nil
+	if needsPadding {
+		maxSize -= maxPaddingOptLen
+	}
+
+	truncate(resp, maxSize)
 
 	// Always compress the response.
 	resp.Compress = true
 
 	// In the case of encrypted protocols we should pad responses.
-	if proto.HasPaddingSupport() {
+	if needsPadding {
 		padAnswer(reqOpt, respOpt)
 	}
 }
